@@ -16,10 +16,15 @@ for line in open(os.path.join(V, "known_findings.txt")):
     if not m:
         continue
     pid, commit, text = m.groups()
-    if only and pid not in only:
+    if only and pid not in only and commit not in only:
         continue
     sh("git -C %s checkout -q --detach $(git -C /repo rev-parse HEAD) && git -C %s reset -q --hard" % (WT, WT))
     r = sh("git -C %s revert -n --no-edit %s" % (WT, commit))
+    how = ""
+    if r.returncode != 0:
+        sh("git -C %s revert --abort; git -C %s reset -q --hard" % (WT, WT))
+        r = sh("git -C %s revert -n --no-edit -X theirs %s" % (WT, commit))  # conflicting hunks: take the pre-fix text
+        how = " [conflicting hunks resolved to the pre-fix text]"
     if r.returncode != 0:
         sh("git -C %s revert --abort; git -C %s reset -q --hard" % (WT, WT))
         rows.append((pid, commit, "revert conflicts with later commits (not tried)", "", text)); print(rows[-1][:3], flush=True)
@@ -42,7 +47,7 @@ for line in open(os.path.join(V, "known_findings.txt")):
                 shutil.copy(os.path.splitext(src)[0] + ".txt", os.path.splitext(dst)[0] + ".txt")
         saved = os.path.relpath(dst, V)
     status = "reported (%s)" % "; ".join(k[:70] for k in keys[:3]) if viol else ("NOT reported" if "OK property" in o else "check did not run: " + o[-200:].replace("\n", " "))
-    rows.append((pid, commit, status, saved, text)); print(rows[-1][:4], flush=True)
+    rows.append((pid, commit, status + how, saved, text)); print(rows[-1][:4], flush=True)
 with open(os.path.join(V, "selftest", "REVERT_RESULTS.md"), "a") as f:
     f.write("\n## run of %s (%s)\n\n| property | fix commit reverted | quick check on the reverted tree | regression input saved | defect |\n|---|---|---|---|---|\n" % (time.strftime("%Y-%m-%d %H:%M"), " ".join(sorted(only)) or "all"))
     for r in rows:
